@@ -3,9 +3,6 @@
 Require Extraction.
 Require Import ExtrOcamlBasic.
 From FJ Require Import Model.Num Model.Masks Model.AutoregNet.
-(* Not imported, only required: building this extraction group (./build.sh C01 leaves autoreg) thereby also compiles the
-   theorems about the extracted definitions, which the harness then re-checks (harness/autoreg.py, ctx.theorems). *)
-From FJ Require Props.X01_autoreg.
 Extraction Language OCaml.
 Cd "../ocaml/gen".
 Extraction "autoreg.ml" mlp unwrap_weights act_of npar t_params
